@@ -8,7 +8,8 @@ interpreted *abstractly*, on all paths:
 * a call of another combinator returns a fresh symbolic fragment for a fresh letter; because what matters for the
   soundness of a composition is how the sub-fragment is wired at its two ends, each call is tried with five
   representative wirings - the ones the combinators themselves produce: plain (X), end loops back to start (X+),
-  start by-passes to end (X?), both (X*), and start *is* end (X*);
+  start by-passes to end (X?), both (X*), start *is* end (X*), a start that is entered again from inside (X+ Y) and
+  an end that can be left into the fragment and reached again (Y X*);
 * ``NFAState(...)`` allocates an abstract state, ``s.add_arc(t[, label])`` adds an (epsilon or letter) arc;
 * paths are explored up to three sub-fragments (three alternatives, three items).
 
@@ -29,8 +30,12 @@ GP = 'parso/pgen2/grammar_parser.py'
 META = ('|', '[', ']', '(', ')', '+', '*', ':')
 MAX_ITER = 3
 MAX_SUBS = 3        # sub-fragments per path (three alternatives / three items)
-SHAPES = ('plain', 'loop', 'bypass', 'loop+bypass', 'same')
-SHAPE_RX = {'plain': '%s', 'loop': '%s+', 'bypass': '%s?', 'loop+bypass': '%s*', 'same': '%s*'}
+SHAPES = ('plain', 'loop', 'bypass', 'loop+bypass', 'same', 'reentrant-start', 'leaky-end')
+SHAPE_RX = {'plain': '%s', 'loop': '%s+', 'bypass': '%s?', 'loop+bypass': '%s*', 'same': '%s*',
+            # the start is entered again from inside (X+ Y): being at the start does not mean "nothing consumed yet"
+            'reentrant-start': '%s+%s',
+            # the end has a way back into the fragment that returns to it (Y X*): being at the end allows more input
+            'leaky-end': '%s%s*'}
 
 
 class Infeasible(Exception):
@@ -231,6 +236,10 @@ class Interp:
                     p.constrain_val(p.gen, [V], True)
                 p.advance()
                 return [(('unknown',), p)]
+            target = self.methods.get(name)
+            if target is not None and (e.args or e.keywords) and name not in (self.advance_m, self.error_m, self.expect_m):
+                # a helper that is handed states: interpreted in place with its parameters bound
+                return self.inline(target, e, p)
             if name in self.combinators:
                 if len(p.shapes) >= MAX_SUBS:
                     raise Infeasible()     # bound of the model reached: path not explored further
@@ -239,11 +248,28 @@ class Interp:
                     q = p.fork()
                     ch = q.new_letter()
                     s = q.new_state()
+                    rx_args = ch
                     if shape == 'same':
                         m = q.new_state()
                         q.arcs.append((s, m, ch))
                         q.arcs.append((m, s, None))
                         t = s
+                    elif shape == 'reentrant-start':
+                        ch2 = q.new_letter()
+                        m = q.new_state()
+                        t = q.new_state()
+                        q.arcs.append((s, m, ch))
+                        q.arcs.append((m, s, None))
+                        q.arcs.append((m, t, ch2))
+                        rx_args = (ch, ch2)
+                    elif shape == 'leaky-end':
+                        ch2 = q.new_letter()
+                        m = q.new_state()
+                        t = q.new_state()
+                        q.arcs.append((s, t, ch))
+                        q.arcs.append((t, m, ch2))
+                        q.arcs.append((m, t, None))
+                        rx_args = (ch, ch2)
                     else:
                         t = q.new_state()
                         q.arcs.append((s, t, ch))
@@ -251,12 +277,41 @@ class Interp:
                             q.arcs.append((t, s, None))
                         if 'bypass' in shape:
                             q.arcs.append((s, t, None))
-                    q.trace.append(('sub', SHAPE_RX[shape] % ch))
+                    q.trace.append(('sub', SHAPE_RX[shape] % rx_args))
                     q.shapes.append('%s:%s=%s' % (name, ch, shape))
                     q.gen += 1             # the callee leaves a new look-ahead behind
                     out.append((('tuple', [('state', s), ('state', t)]), q))
                 return out
         raise NotModelled('GEN-5: call not modelled: %s' % norm(e))
+
+    def inline(self, target, e, p, depth=[0]):
+        if depth[0] > 3:
+            raise NotModelled('GEN-5: helper calls nested too deeply at %s' % norm(e))
+        params = target.params()[1:]
+        if e.keywords or len(e.args) != len(params):
+            raise NotModelled('GEN-5: helper call not modelled: %s' % norm(e))
+        outs = [([], p)]
+        for a in e.args:
+            nxt = []
+            for vals, q in outs:
+                for v, q2 in self.eval(a, q):
+                    nxt.append((vals + [v], q2))
+            outs = nxt
+        results = []
+        depth[0] += 1
+        try:
+            for vals, q in outs:
+                saved = q.env
+                q.env = dict(zip(params, vals))
+                for oc, q2 in self.block(target.node.body, q):
+                    q2.env = dict(saved)
+                    if isinstance(oc, tuple) and oc[0] == 'return':
+                        results.append((oc[1], q2))
+                    elif oc == 'next':
+                        results.append((('const', None), q2))
+        finally:
+            depth[0] -= 1
+        return results
 
     # -- conditions -----------------------------------------------------------------------------------------------
     def branch(self, test, p):
@@ -463,7 +518,7 @@ def _nfa_of(path, start, end):
 
 def gen_5(ctx, rep):
     rep.rule('GEN-5', 'EBNF -> NFA: on every path of every combinator of GrammarParser (at most three operands per path, sub-fragments in '
-                      'five representative wirings) the states and arcs built, read from the returned start to the returned '
+                      'seven representative wirings) the states and arcs built, read from the returned start to the returned '
                       'end state, accept exactly the language of the EBNF phrase the path consumed (|, [], (), +, *, '
                       'juxtaposition)')
     cls = ctx.prog.cls(GP, 'GrammarParser')
@@ -471,6 +526,8 @@ def gen_5(ctx, rep):
     total = 0
     for name in sorted(it.combinators):
         m = cls.methods[name]
+        if len(m.params()) > 1:
+            continue          # a helper that is handed states: covered through its callers
         p0 = Path()
         try:
             results = it.block(m.node.body, p0)
